@@ -506,3 +506,7 @@ mod tests {
         assert_eq!(result.ids.to_vec(), expected);
     }
 }
+
+#[cfg(kani)]
+#[path = "/verif/kani/group.rs"]
+mod verif_kani;
